@@ -84,9 +84,16 @@ inductive MultiKind
   | user (u : UserTy) (msg : Str)
   deriving Repr, Inhabited
 
+/-- a barrier's own data: its redactable message and, for a barrier that was decoded from
+    the network, the safe details it was received with (re-emitted as is) -/
+structure BarrierMsg where
+  smsg : RStr
+  recv : Option (List Str)
+  deriving DecidableEq, Repr, Inhabited
+
 inductive Err
   | leaf (id : Ident) (k : LeafKind)
-  | barrier (id : Ident) (smsg : RStr) (masked : Err)
+  | barrier (id : Ident) (m : BarrierMsg) (masked : Err)
   | wrap (id : Ident) (k : WrapKind) (cause : Err)
   | second (id : Ident) (cause : Err) (sec : Err)
   | multi (id : Ident) (k : MultiKind) (causes : List Err)
